@@ -249,9 +249,12 @@ SizeOf(c, b) ==
     [] c = "125" -> 125 [] c = "126" -> 126 [] c = "127" -> 127
     [] c = "PB" -> PB [] c = "PB+1" -> PB + 1 [] c = "2PB+1" -> 2 * PB + 1
     [] c = "65535" -> 65535 [] c = "65536" -> 65536 [] c = "65537" -> 65537
-Sizes(b) == {SizeOf(c, b) : c \in WClasses}
+\* (sizes that would take more than MaxFrag buffer fills are left out: they add frames, not cases)
+MaxFrag == 40
+Fits(S0, b) == {x \in S0 : x <= MaxFrag * b}
+Sizes(b) == Fits({SizeOf(c, b) : c \in WClasses}, b)
 CtlSizes == {0, 1, 125, 126}
-OneCallSizes(b) == {SizeOf(c, b) : c \in OClasses}
+OneCallSizes(b) == Fits({SizeOf(c, b) : c \in OClasses}, b)
 PreparedSizes(b) == {SizeOf(c, b) : c \in PClasses}
 Types == {Text, Binary, Close, Ping, Pong, BadType}
 
